@@ -115,6 +115,9 @@ CANARIES = [
      "                                          modifiers=query_modifiers,\n                                          order_by=order_by, limit=query.limit)\n\n            integration_selects = [integration_select_1, integration_select_2]\n        else:", 'C15.rows.g'),
     ('c15-find-first-only', 'C15', 'mindsdb_sql/planner/ts_utils.py', "        if left and right:\n            raise PlanningException('Can provide only one filter by predictor order_by column, found two')\n", "", 'C15.find.and.leaf-leaf'),
     ('c15-allow-orderby', 'C15', 'mindsdb_sql/planner/plan_join_ts.py', "        if query.order_by:\n            raise PlanningException(", "        if query.order_by and False:\n            raise PlanningException(", 'C15.reject.order-by'),
+    ('c08-limit-precedence-again', 'C08', 'mindsdb_sql/planner/plan_join.py', "if query_in.having is None and query_in.group_by is None and query_in.limit is not None:", "if query_in.having is None or query_in.group_by is None and query_in.limit is not None:", 'C08.limit.'),
+    ('c08-outer-drops-having', 'C08', 'mindsdb_sql/planner/plan_join.py', "            query2.from_table = None\n            query2.using = None", "            query2.from_table = None\n            query2.having = None\n            query2.using = None", 'C08.outer.reapply'),
+    ('c08-no-or-guard', 'C08', 'mindsdb_sql/planner/plan_join.py', "        if 'or' in self.query_context['binary_ops']:\n            # not use conditions\n            conditions = []", "        if False:\n            conditions = []", 'C08.filter.context.or'),
 ]
 
 
